@@ -153,3 +153,30 @@ Theorem C01_retained_reuse_refuted :
     let '(st', refs') := decode_into false ([], None) (fst op1) (snd op1) in
     exists r', nth_error refs' 1 = Some r' /\ read (fst (run false st' [op2])) r' = Some [1%N].
 Proof. vm_compute. eexists. repeat split. eexists. split; reflexivity. Qed.
+
+(* C01_input_overwrite_stable: the CALLER's buffer.  A decode reads its input out
+   of the caller's buffer c; whatever it hands out (the object and its children
+   at their spans) reads as that input and its slices, and keeps doing so after
+   the caller overwrites or re-uses c any number of times with anything
+   (the code as it is: cbor.Decode streams the input through a private buffer) *)
+Theorem C01_input_overwrite_stable : forall h c data spans vs, nth_error h c = Some data ->
+  let '(h', refs) := decode_from false h c spans in
+  Forall2 (fun r want => read (scribble h' c vs) r = Some want)
+          refs (data :: map (fun s => slice (fst s) (snd s) data) spans).
+Proof.
+  intros h c data spans vs Hc. pose proof (decode_from_reads h c data spans Hc) as H.
+  destruct (decode_from false h c spans) as [h' refs].
+  induction H as [|r want refs wants [Hr Hne] _ IH]; constructor; [|exact IH].
+  rewrite read_scribble_other by exact Hne. exact Hr.
+Qed.
+Print Assumptions C01_input_overwrite_stable.
+
+(* ... and decoding in place (seeded/C01-c-decode-in-place-aliases-input) breaks it: the body
+   reference reads a byte the caller wrote afterwards *)
+Theorem C01_input_inplace_refuted :
+  let '(data, spans, next) := inplace_witness in
+  let '(h1, refs1) := decode_from true [data] 0 spans in
+  exists r, nth_error refs1 1 = Some r /\ read h1 r = Some [1%N] /\ read (scribble h1 0 [next]) r = Some [9%N] /\
+    let '(h2, refs2) := decode_from false [data] 0 spans in
+    exists r', nth_error refs2 1 = Some r' /\ read (scribble h2 0 [next]) r' = Some [1%N].
+Proof. vm_compute. eexists. repeat split. eexists. split; reflexivity. Qed.
